@@ -98,7 +98,9 @@ def gen_program(rng, kind, ntx=None, small=False):
                      (j >= split and not (step_oids.get(j, set()) & base_oids))]
             if canundo and cands and r < 0.42 and (in_changes or not kind.startswith('demo')) \
                     and not ops:
-                ops.append(['u', rng.choice(cands[-3:])])
+                # mostly the newest candidate: undo of an undo gives multi-hop back-pointer chains
+                # (an undo of the immediately preceding transaction always succeeds)
+                ops.append(['u', cands[-1] if rng.random() < 0.7 else rng.choice(cands[-3:])])
                 break                                  # an undo is the only op of its transaction
             elif candel and r < 0.4 and any(live.values()):
                 o = rng.choice(sorted(k for k, v in live.items() if v))
@@ -131,7 +133,7 @@ def gen_program(rng, kind, ntx=None, small=False):
         steps.append(dict(t=tid, u=rng.choice([b'', b'u', b'user.name', b'\xc3\xa9']).hex(),
                           d=rng.choice([b'', b'd', b'a description. with dots.', b'x' * 30]).hex(),
                           e=rng.choice([None, None, 1, 'ext.']), ops=ops))
-        if ops[0][0] != 'u' or rng.random() < 0.5:
+        if ops[0][0] != 'u' or rng.random() < 0.8:
             undoable.append(len(steps) - 1)
         tid += GAP * rng.choice([1, 1, 2, 7])
         if rng.random() < 0.15 and i < ntx - 1 and not (kind.startswith('demo') and i >= split - 1):
@@ -1075,7 +1077,7 @@ def run_copy_part(ck, cases):
                                         'back' if r[3] is not None else 'full'))
         v = judge_copy(case, res)
         if v:
-            small = shrink_copy(ck, case, v[0])
+            small = shrink_copy(ck, case, v[0]) if len(ck.violations) < 2 else case
             ck.violation(v[0], v[1], small)
             continue
         if span is None:
@@ -1173,7 +1175,7 @@ def run_recover_part(ck, files, nproc):
             verdict, sig, what = judge_recover(raw, txns, oview, dmg, obs)
             ck.count('recover:verdict:' + verdict)
             if verdict == 'violation':
-                ck.violation(sig, what, shrink_recover(ck, key, sig, nproc))
+                ck.violation(sig, what, shrink_recover(ck, key, sig, nproc) if len(ck.violations) < 2 else key)
                 continue
             if verdict.startswith('excluded'):
                 excl[verdict] = excl.get(verdict, 0) + 1
@@ -1272,6 +1274,9 @@ def main(argv=None):
             dmgs = gen_damages(ck.rng, raw, txns, 64 if not big else 24, 64 if not big else 16)
         files.append(dict(prog=prog, raw=raw, undos=undos, dmgs=dmgs))
         ck.count('recover:file' + (':big' if big else '') + (':undo' if undos else ''))
+        byp = {r['pos']: r for t in txns for r in t['recs']}
+        if any(r['back'] and byp[r['back']]['plen'] == 0 for r in byp.values()):
+            ck.count('recover:file:multi-hop-chain')
     excl = run_recover_part(ck, files, nproc)
     finish(ck, excl)
 
